@@ -154,6 +154,7 @@ def step (x : S) (ws : List String) : Option (S × String × List String) :=
     let i ← x.rmap.lookup r
     -- Add returns the receiver count its atomic operation left; the model's word has moved on since, so only sanity is checked here
     if (x.st.recvs i).pc == .out then ok x (if ret == 0 then [] else []) else rej x "Add returned while the model still has it absorbing / locked"
+  | ["panic", who, msg] => rej x s!"a call panicked: {who} {msg}"
   | ["final", w] => do
     let w ← kv w "w"
     if x.st.word != w then rej x s!"final word: model {x.st.word}" else
